@@ -12,7 +12,7 @@ import subprocess
 import sys
 import time
 
-EVAL = "/tmp/eval"
+EVAL = os.environ.get("EVAL_DIR", "/tmp/eval")
 REPO = EVAL + "/repo"
 VERIF = EVAL + "/verif"
 ENV = dict(os.environ, CARGO_NET_OFFLINE="true", VERIF_REPO=REPO)
@@ -102,7 +102,7 @@ def main():
         rec["checks"][pid] = {"exit": rc, "wall_s": round(time.time() - t0, 1), "lines": lines[:12]}
     sh("git checkout -q -- .", cwd=REPO)
     print(json.dumps(rec))
-    with open(EVAL + "/results.jsonl", "a") as f:
+    with open("/tmp/eval/results.jsonl", "a") as f:
         f.write(json.dumps(rec) + "\n")
 
 
